@@ -90,7 +90,10 @@ Focus == AnysOver({R_DictRelaxed, R_Dict, SInt1}) \cup
          \* nullable and optional-none members: a given None is a value like any other
          DictsOver({SNullableStr, BareNone}) \cup
          {DictOf(<<DKey(KA, SFloatMinPrec, FALSE), DKey(KB, SFloatMaxPrec, TRUE)>>), TypedList(SFloatMinPrec)} \cup
-         SubScalars
+         SubScalars \cup
+         \* unions with an accept-everything alternative on either side, and one wide enough to be
+         \* written as (a | b) | (c | d)
+         {AnyOf(<<BareAny, SInt1>>), AnyOf(<<SStrAB, BareAny>>), AnyOf(<<SInt1, SStrAB, BareNone, BareBool>>)}
 
 Containers == Level1 \cup Level2 \cup Wrapped \cup Focus
 
